@@ -497,7 +497,9 @@ def check(prop_id, tier, seed):
     violations = []     # (replay_path, suffix)
     known_lines = []
     notes = []
-    evidence_path = os.path.join(VERIF, "evidence", "%s.json" % mod.ID)
+    # evidence is only ever written for /repo itself; runs against another tree
+    # (VERIF_REPO=..., used to try the checks on mutants) go to an ignored directory
+    evidence_path = os.path.join(VERIF, "evidence" if REPO == "/repo" else "evidence-alt", "%s.json" % mod.ID)
     try:
         os.remove(evidence_path)
     except FileNotFoundError:
